@@ -454,8 +454,9 @@ def finish(prop, tier, seed, res, wall, extra_assumptions):
     if res["exhaustive"] is not None:
         ev["coverage"]["exhaustive"] = bool(res["exhaustive"])
     ev["coverage"].update(res["extra"])
-    os.makedirs(os.path.join(VERIF, "evidence"), exist_ok=True)
-    with open(os.path.join(VERIF, "evidence", prop + ".json"), "w") as f:
+    evdir = os.environ.get("VERIF_EVIDENCE_DIR") or os.path.join(VERIF, "evidence")  # (mutation runs write elsewhere)
+    os.makedirs(evdir, exist_ok=True)
+    with open(os.path.join(evdir, prop + ".json"), "w") as f:
         json.dump(jsonable(ev), f, indent=1, sort_keys=True)
     for ln in lines:
         print(ln)
